@@ -5,7 +5,7 @@ import copy
 import pickle
 
 from . import lib
-from .lang import Env, Failed, HarnessError, InjectedFault, Skipped, Value, cone, op_deps
+from .lang import Env, Failed, HarnessError, InjectedError, InjectedFault, Skipped, Value, cone, op_deps
 from .obs import _norm_value, _panel, _try, diff, observe
 
 
@@ -201,8 +201,8 @@ def exec_op(env: Env, op, dup_identity=False, op_fault=None):
             with win:
                 return do_dup(env, o, op)
         raise HarnessError("unknown op " + k)
-    except InjectedFault as e:
-        return Failed("InjectedFault", str(e), injected=True, stage=stage)
+    except (InjectedFault, InjectedError) as e:
+        return Failed(type(e).__name__, str(e), injected=True, stage=stage)
     except HarnessError:
         raise
     except Exception as e:  # noqa: BLE001  library exception: a legitimate outcome of the op
